@@ -30,8 +30,8 @@ Opts(m) ==
   ELSE IF m = "Conv1d" THEN [in_channels |-> {"4"}, out_channels |-> {"2", "6"}, kernel_size |-> {"1", "3"}, stride |-> {"1", "2"}, padding |-> {"0", "2"},
                              dilation |-> {"1", "2"}, groups |-> {"1", "2"}, bias |-> {"False", "True"},
                              padding_mode |-> {"'zeros'", "'reflect'", "'replicate'", "'circular'"}, constraint |-> {"None", "'gmean'", "'to_output_scale'", "'to_grad_input_scale'"}]
-  ELSE IF m = "LayerNorm" THEN [normalized_shape |-> {"8", "(4, 8)"}, eps |-> {"1e-05", "0.001"}, elementwise_affine |-> {"False", "True"}, bias |-> {"True", "False"}]
-  ELSE IF m = "RMSNorm" THEN [normalized_shape |-> {"8", "(4, 8)"}, eps |-> {"1e-05", "0.001"}, elementwise_affine |-> {"False", "True"}]
+  ELSE IF m = "LayerNorm" THEN [normalized_shape |-> {"8", "(4, 8)"}, eps |-> {"1e-05", "0.001", "0.0"}, elementwise_affine |-> {"False", "True"}, bias |-> {"True", "False"}]
+  ELSE IF m = "RMSNorm" THEN [normalized_shape |-> {"8", "(4, 8)"}, eps |-> {"1e-05", "0.001", "0.0"}, elementwise_affine |-> {"False", "True"}]   \* eps = 0.0 is a valid value, not "unset"
   ELSE IF m = "Embedding" THEN [num_embeddings |-> {"7"}, embedding_dim |-> {"4"}, padding_idx |-> {"None", "0", "-1"}, max_norm |-> {"None", "1.0"},
                                 scale_grad_by_freq |-> {"False", "True"}, sparse |-> {"False", "True"}]
   ELSE [mult |-> {"1.0", "0.5"}, ignore_index |-> {"-100", "1"}, reduction |-> {"'mean'", "'sum'"}, label_smoothing |-> {"0.0", "0.1"}, size_average |-> {"None", "True", "False"}]
